@@ -82,6 +82,8 @@ func (r *chainRun) doAdversarial(st *CStep, n *Node, v *nodeView, failed *bool, 
 		r.rc.St.Probes["badtx-refused"]++
 	case "badblock":
 		return r.doBadBlock(st, n, v, failed, failKind)
+	case "invoke":
+		return r.doInvoke(st, n, failed)
 	}
 	return nil
 }
